@@ -234,6 +234,15 @@ macro_rules! body {
                         $go(module.glwe_decrypt_tmp_bytes(&li), &mut |s: &mut Scratch<$T>| {
                             module.glwe_decrypt(&ct, &mut out, &skp, s); out.data.data.clone() }) }
                 } }
+            118 => { // glwe_public_key_generate [be n | glwe(6)]: takes no scratch - it allocates ScratchOwned::alloc(glwe_encrypt_sk_tmp_bytes)
+                     // itself (rounded up to 64 bytes) and runs glwe_encrypt_sk in it; `need` is that rounded size
+                let li = glwe_l(n, &p[2..8]);
+                let infos = EncryptionLayout::new_from_default_sigma(li).unwrap();
+                let mut sk = GLWESecret::alloc_from_infos(&li); sk.fill_ternary_prob(0.5, &mut src(30));
+                let mut skp = module.glwe_secret_prepared_alloc(li.rank); module.glwe_secret_prepare(&mut skp, &sk);
+                $go(module.glwe_encrypt_sk_tmp_bytes(&li).next_multiple_of(64), &mut |_s: &mut Scratch<$T>| {
+                    let mut pk = GLWEPublicKey::alloc_from_infos(&li);
+                    module.glwe_public_key_generate(&mut pk, &skp, &infos, &mut src(34), &mut src(35)); pk.to_ref().data().data.to_vec() }) }
             106 | 107 => { // glwe_keyswitch(_assign)  [be n | res(6) a(6) key(6)]
                 let (lr, la, lk) = (glwe_l(n, &p[2..8]), glwe_l(n, &p[8..14]), gglwe_l(n, &p[14..20]));
                 let mut key = GGLWE::alloc_from_infos(&lk); key.fill_uniform(u(p[14]), &mut src(40));
@@ -373,11 +382,11 @@ impl Gen {
 fn min_n(op: i64, fft: bool) -> i128 {
     match op {
         11..=14 | 21 => 2,
-        30 | 31 | 32 => if fft { 8 } else { 1 },
+        30 | 31 | 32 => if fft { 8 } else { 2 }, // NTT120 vmp works on x2 blocks (debug_assert!(n >= 2)); FFT64 on blocks of 4 complex
         40 | 50..=53 | 55 => if fft { 2 } else { 1 },
-        103 | 105 => if fft { 2 } else { 1 },
+        103 | 105 | 118 => if fft { 2 } else { 1 },
         104 => 8, // glwe_public_key_generate (set-up of the record) itself allocates glwe_encrypt_sk_tmp_bytes and panics below 8
-        106..=109 => if fft { 8 } else { 1 },
+        106..=109 => if fft { 8 } else { 2 },
         110..=112 => if fft { 8 } else { 2 },
         115 => 2,
         _ => 1,
@@ -448,7 +457,7 @@ pub fn generate(tier: &str, seed: u64) -> Vec<Rec> {
             }
             for &(b2k, k, rank) in &[(17i128, 17i128, 1i128), (17, 40, 1), (12, 36, 2), (10, 55, 3)] {
                 let gi = inf(b2k, k, rank, rank, 0, 1);
-                for &op in &[103i64, 104, 105] {
+                for &op in &[103i64, 104, 105, 118] {
                     if !ok(op) { continue; }
                     let mut ps = vec![be, n]; ps.extend(&gi);
                     g.push(op, ps, dense_core, true);
